@@ -3,6 +3,7 @@ CONSTANTS
   MaxE = 6
   MaxOps = 1000
   GenHist = FALSE
+  GenKinds = {"H", "T"}
 INIT TInit
 NEXT TNext
 INVARIANTS NoLate NextSound ExactlyOnce NotEarly Ordered Unique
